@@ -108,6 +108,7 @@ func hexVal(s string) (uint64, bool) {
 type modelReader struct {
 	e     *Exec
 	extra []*Term // asserted definitions q = term
+	soft  []*Term // preferences (small inputs): tried first, dropped if unsatisfiable
 	names map[string]*Term
 	vals  map[string]string
 	n     int
@@ -242,6 +243,9 @@ func (g *goBuilder) value(T types.Type, v Val, depth int) func() string {
 			vs = e.assumeValid(vs, T, v, true)
 			g.m.extra = append(g.m.extra, vs.pcList()...)
 			g.m.extra = append(g.m.extra, c.Ule(v[2], c.Const(64, 4096)))
+		}
+		if depth == 0 {
+			g.m.soft = append(g.m.soft, c.Ule(v[1], c.Const(64, 2048)), c.Ule(v[2], c.Const(64, 4096)))
 		}
 		ql, qc := g.m.want(v[1]), g.m.want(v[2])
 		// element plans for the first few elements
@@ -404,14 +408,22 @@ func solveModel(ob *Obligation, m *modelReader, dir string) (map[string]string, 
 		asserts = append(asserts, ob.Asserts...)
 	}
 	asserts = append(asserts, m.extra...)
-	script := ob.ctx.Script(asserts, true)
 	file := filepath.Join(dir, "replay-model.smt2")
-	os.WriteFile(file, []byte(script), 0o644)
 	defer os.Remove(file)
-	for _, sp := range solvers[:2] {
-		r := runSolver(sp, file, 60)
-		if r.res == "sat" {
-			return parseModel(r.out), r.out
+	for _, withSoft := range []bool{true, false} {
+		as := asserts
+		if withSoft {
+			if len(m.soft) == 0 {
+				continue
+			}
+			as = append(append([]*Term{}, asserts...), m.soft...)
+		}
+		os.WriteFile(file, []byte(ob.ctx.Script(as, true)), 0o644)
+		for _, sp := range solvers[:2] {
+			r := runSolver(sp, file, 60)
+			if r.res == "sat" {
+				return parseModel(r.out), r.out
+			}
 		}
 	}
 	return nil, ""
@@ -714,11 +726,26 @@ func buildReplayTest(P *Program, e *Exec, fn *ssa.Function, ob *Obligation, rf *
 	var olds []string
 	pred := ""
 	predNote := ""
+	detBase := ""
 	switch {
 	case strings.HasPrefix(ob.Kind, "nopanic"):
 		pred = "panic"
 	case ob.Kind == "confine":
 		pred = "differential"
+	case ob.Kind == "determined":
+		// the declared span of the output must not depend on what the buffer held before
+		var di int
+		if _, err := fmt.Sscanf(ob.Label, "d%d", &di); err == nil && di < len(ct.Determines) {
+			if sl, ok := ct.Determines[di].(ESlice); ok {
+				if id, ok := sl.X.(EIdent); ok {
+					if span, ok := contractToGo(ct.Determines[di], &olds); ok {
+						pred = "determined"
+						predNote = span
+						detBase = id.Name
+					}
+				}
+			}
+		}
 	case ob.Kind == "variant" || ob.Kind == "unwind":
 		pred = "hang"
 	case ob.Kind == "lemma":
@@ -779,6 +806,9 @@ func buildReplayTest(P *Program, e *Exec, fn *ssa.Function, ob *Obligation, rf *
 	for _, o := range olds {
 		sb.WriteString("\t" + o + "\n")
 	}
+	if pred == "determined" {
+		fmt.Fprintf(&sb, "\tfor i := range %s {\n\t\t%s[i] = fill\n\t}\n", detBase, detBase)
+	}
 	if len(resNames) > 0 {
 		fmt.Fprintf(&sb, "\t%s := %s\n", strings.Join(resNames, ", "), call)
 		for _, r := range resNames {
@@ -803,6 +833,9 @@ func buildReplayTest(P *Program, e *Exec, fn *ssa.Function, ob *Obligation, rf *
 		}
 	}
 	sb.WriteString(strings.Join(obs, ", ") + ")\n")
+	if pred == "determined" {
+		fmt.Fprintf(&sb, "\tout = fmt.Sprintf(\"%%x\", %s)\n", predNote)
+	}
 	if pred == "post" {
 		fmt.Fprintf(&sb, "\tif !(%s) {\n\t\tout = \"POSTFAIL \" + out\n\t}\n", predNote)
 	}
@@ -816,6 +849,8 @@ func buildReplayTest(P *Program, e *Exec, fn *ssa.Function, ob *Obligation, rf *
 		sb.WriteString("\t_, p := kvcRun(0xAA)\n\tif p != nil {\n\t\tfmt.Println(\"KVC-REPLAY: confirmed panic:\", p)\n\t} else {\n\t\tfmt.Println(\"KVC-REPLAY: not-reproduced no panic\")\n\t}\n")
 	case "differential":
 		sb.WriteString("\to1, p1 := kvcRun(0x00)\n\to2, p2 := kvcRun(0xFF)\n\tif p1 != nil || p2 != nil {\n\t\tfmt.Println(\"KVC-REPLAY: confirmed panic:\", p1, p2)\n\t} else if o1 != o2 {\n\t\tfmt.Println(\"KVC-REPLAY: confirmed result depends on bytes beyond len(data):\", o1, \"vs\", o2)\n\t} else {\n\t\tfmt.Println(\"KVC-REPLAY: not-reproduced identical results\", o1)\n\t}\n")
+	case "determined":
+		sb.WriteString("\to1, p1 := kvcRun(0x00)\n\to2, p2 := kvcRun(0xFF)\n\tif p1 != nil || p2 != nil {\n\t\tfmt.Println(\"KVC-REPLAY: confirmed panic:\", p1, p2)\n\t} else if o1 != o2 {\n\t\tfmt.Println(\"KVC-REPLAY: confirmed the encoding depends on the previous content of the buffer:\", o1, \"vs\", o2)\n\t} else {\n\t\tfmt.Println(\"KVC-REPLAY: not-reproduced identical encodings\", o1)\n\t}\n")
 	case "hang":
 		sb.WriteString("\tdone := make(chan struct{})\n\tgo func() { kvcRun(0xAA); close(done) }()\n\tselect {\n\tcase <-done:\n\t\tfmt.Println(\"KVC-REPLAY: not-reproduced terminated\")\n\tcase <-time.After(3 * time.Second):\n\t\tfmt.Println(\"KVC-REPLAY: confirmed no termination within 3s\")\n\t}\n")
 	case "post", "lemma":
